@@ -1192,6 +1192,7 @@ package ring
 
 //@ func Ring.NewPoly
 //@   trusted nested allocation: assumed shape and freshness of the result
+//@   assigns
 //@   requires 0 < len(r.SubRings)
 //@   ensures len(result.Coeffs) == r.level+1
 //@   ensures forall(i, 0, r.level+1, len(result.Coeffs[i]) == r.SubRings[0].N && fresh(result.Coeffs[i]))
@@ -1200,18 +1201,47 @@ package ring
 //@   property C01
 //@   requires ringwf(r) && r.level < len(p1.Coeffs) && r.level < len(p2.Coeffs)
 //@   let N = r.SubRings[0].N
+//@   let L = r.level + 1
+//@   let sf = k % (2 * N)
 //@   requires 0 < N && N <= 1<<20
-//@   requires forall(i, 0, r.level+1, len(p1.Coeffs[i]) >= N && len(p2.Coeffs[i]) >= N)
-//@   loop 0 invariant 0 <= i && i <= r.level+1
-//@   loop 1 invariant 0 <= j && j <= N
-//@   loop 2 invariant 0 <= i && i <= r.level+1
-//@   loop 3 invariant 0 <= j && j <= N
-//@   loop 4 invariant 0 <= i && i <= r.level+1
-//@   loop 5 invariant 0 <= j && j <= N
-//@   loop 6 invariant 0 <= i && i <= r.level+1
-//@   loop 7 invariant 0 <= j && j <= shift
-//@   loop 8 invariant 0 <= i && i <= r.level+1
-//@   loop 9 invariant shift <= j && j <= N
+//@   requires forall(i, 0, L, len(p1.Coeffs[i]) >= N && len(p2.Coeffs[i]) >= N)
+// the property, coefficient by coefficient: X^sf * X^m = X^(m+sf) and X^N = -1, where sf is the
+// mathematical residue of k modulo 2N (for every int k, negative ones included); inputs in [0, q],
+// a negated coefficient is q - x (in [0, q], as for Neg)
+//@   ensures forall(i, 0, L, forall(m, 0, N, implies((m + sf) % (2*N) < N, p2.Coeffs[i][(m + sf) % (2*N)] == old(p1.Coeffs[i][m])))) by tmod_shift(k, 2*N); mod_range(m + sf, 2*N); mod_range(sf, N)
+//@   ensures forall(i, 0, L, forall(m, 0, N, implies((m + sf) % (2*N) >= N, p2.Coeffs[i][(m + sf) % (2*N) - N] == r.SubRings[i].Modulus - old(p1.Coeffs[i][m])))) by tmod_shift(k, 2*N); mod_range(m + sf, 2*N); mod_range(sf, N)
+//@   let q = r.SubRings[i].Modulus
+//@   rowloop 0 i 0 r.level+1 out=p2
+//@   rowkeep
+//@   rowpre sameOrDisjoint(p2.Coeffs[i][0:N], p1.Coeffs[i][0:N])
+//@   rowpost forall(b, 0, N, p2.Coeffs[i][b] == old(p1.Coeffs[i][b]))
+//@   loop 1 assigns p2.Coeffs[i]
+//@   loop 1 invariant 0 <= j && j <= N && forall(b, 0, j, p2.Coeffs[i][b] == old(p1.Coeffs[i][b])) && forall(b, 0, N, p1.Coeffs[i][b] == old(p1.Coeffs[i][b]))
+//@   rowloop 2 i 0 r.level+1 out=tmpx
+//@   rowkeep
+//@   rowpost forall(b, 0, N, tmpx.Coeffs[i][b] == old(p1.Coeffs[i][b]))
+//@   loop 3 assigns tmpx.Coeffs[i]
+//@   loop 3 invariant 0 <= j && j <= N && forall(b, 0, j, tmpx.Coeffs[i][b] == old(p1.Coeffs[i][b]))
+//@   rowloop 4 i 0 r.level+1 out=tmpx
+//@   rowkeep
+//@   rowpre forall(b, 0, N, p1.Coeffs[i][b] <= q)
+//@   rowpost forall(b, 0, N, tmpx.Coeffs[i][b] == q - old(p1.Coeffs[i][b]))
+//@   loop 5 assigns tmpx.Coeffs[i]
+//@   loop 5 invariant 0 <= j && j <= N && forall(b, 0, j, tmpx.Coeffs[i][b] == q - old(p1.Coeffs[i][b]))
+//@   rowloop 6 i 0 r.level+1 out=p2
+//@   rowkeep
+//@   rowpre forall(b, 0, N, old(p1.Coeffs[i][b]) <= q)
+//@   rowpost forall(b, 0, shift, p2.Coeffs[i][b] == ite(sf < N, q - old(p1.Coeffs[i][N - shift + b]), old(p1.Coeffs[i][N - shift + b])))
+//@   loop 7 assigns p2.Coeffs[i]
+//@   loop 7 lemma tmod_shift(k, 2*N); mod_range(sf, N)
+//@   loop 7 invariant 0 <= j && j <= shift && forall(b, 0, j, p2.Coeffs[i][b] == ite(sf < N, q - old(p1.Coeffs[i][N - shift + b]), old(p1.Coeffs[i][N - shift + b])))
+//@   rowloop 8 i 0 r.level+1 out=p2
+//@   rowkeep
+//@   rowpost forall(b, 0, shift, p2.Coeffs[i][b] == ite(sf < N, q - old(p1.Coeffs[i][N - shift + b]), old(p1.Coeffs[i][N - shift + b])))
+//@   rowpost forall(b, shift, N, p2.Coeffs[i][b] == ite(sf < N, old(p1.Coeffs[i][b - shift]), q - old(p1.Coeffs[i][b - shift])))
+//@   loop 9 assigns p2.Coeffs[i]
+//@   loop 9 lemma tmod_shift(k, 2*N); mod_range(sf, N)
+//@   loop 9 invariant shift <= j && j <= N && forall(b, 0, shift, p2.Coeffs[i][b] == ite(sf < N, q - old(p1.Coeffs[i][N - shift + b]), old(p1.Coeffs[i][N - shift + b]))) && forall(b, shift, j, p2.Coeffs[i][b] == ite(sf < N, old(p1.Coeffs[i][b - shift]), q - old(p1.Coeffs[i][b - shift])))
 
 // ---- uniform sampling (property C17): every value handed to the store callback lies in [0, q_j);
 // ---- the byte buffer is read in aligned 8-byte words inside its bounds, for every state of the
